@@ -129,3 +129,20 @@ Theorem c19_any_cache_state : forall cmp t key val prio k s,
   Forall (fun r => in_node t r \/ in_keypart t r) (reads_of s (del_touches cmp t k)).
 Proof. exact LazyMutProofs.mut_reads_any_cache. Qed.
 Print Assumptions c19_any_cache_state.
+
+(* ---------------------------------------------------------------------------------------------- *)
+(* REGENERATED FROM THE SOURCE ON EVERY RUN (tools/gen -> Generated.g_code; Decisions.v): the decisions the model
+   takes at these points are the evaluations of the conditions the Go source has there, for all values of their
+   variables. *)
+From GK Require Import GExpr Generated Decisions.
+From Coq Require Import String.
+
+(* itemLoc.read: an item is (re)read from the file iff it is not cached, or cached without its value while the value is
+   asked for: the rule behind Lazy.item_reads and LazyMut.reads_of *)
+Theorem c19_item_reload_is_source :
+  exists c, decisions "itemLoc.read" "icur.Val" = [c] /\
+    forall cached hasval wv : bool,
+      gtrue (upd (upd (upd env0 "icur" (b2z cached)) "icur.Val" (b2z hasval)) "withValue" (b2z wv)) c =
+      Some (negb cached || (negb hasval && wv)).
+Proof. exact Decisions.item_reload_decision. Qed.
+Print Assumptions c19_item_reload_is_source.
